@@ -83,7 +83,19 @@ class Reader:
         self.raw = raw[0].data["result"] if raw else None
         self.conv = [e for e in self.r.of_kind("call")
                      if e.data.get("name") == ".astype"]
+        if not self.conv:
+            # np.array(<rows>, dtype=float) as the converting step
+            self.conv = [e for e in self.r.of_kind("call")
+                         if e.data.get("name") in ("numpy.array",
+                                                   "numpy.asarray") and
+                         dict(e.data["kwargs"]).get("dtype") is not None]
         self.mat = self.conv[0].data["result"] if self.conv else None
+        if self.mat is not None:
+            # the table the slices are taken from may be a reshaped view
+            for e in self.r.of_kind("call"):
+                if e.data.get("name") == ".reshape" and \
+                        e.data.get("recv") is self.mat:
+                    self.mat = e.data["result"]
 
 
 def _guard(rd: Reader):
@@ -214,13 +226,36 @@ def check(ctx):
             c = rd.conv[0]
             recv = c.data.get("recv")
             arg = c.data["args"][0] if c.data["args"] else None
+            if c.data.get("name") != ".astype":
+                # np.array(src, dtype=float): normalise to the astype form
+                recv = tm.call(tm.glob("numpy.array"),
+                               (c.data["args"][0],), ()) \
+                    if c.data["args"] else None
+                arg = dict(c.data["kwargs"]).get("dtype")
             whole = recv is not None and is_call_to(recv, "numpy.array") \
                 and recv.args[1] and recv.args[1][0] is rd.raw
+            src = recv.args[1][0] if recv is not None and \
+                is_call_to(recv, "numpy.array") and recv.args[1] else None
+            flat = src is not None and src is not rd.raw and any(
+                is_call_to(x, "itertools.chain.from_iterable",
+                           "itertools.chain", "builtins.sum",
+                           "numpy.concatenate", "numpy.hstack",
+                           "numpy.ravel", ".ravel", ".flatten")
+                or (x.op == "comp" and len(x.args[2]) == 2)
+                for x in src.walk()) and any(y is rd.raw
+                                             for y in src.walk())
             isfloat = arg is tm.glob("builtins.float") or (
                 arg is not None and arg.op == "global" and
                 arg.args[0] in ("numpy.float64", "numpy.double"))
             conv_src_ok = whole and isfloat
-            if not whole:
+            if flat:
+                why = (f"the rows are flattened ({fmt(src)[:70]}) before "
+                       f"the conversion and re-shaped afterwards: numpy no "
+                       f"longer sees the row lengths, so ragged rows whose "
+                       f"entry counts add up (one short, one long) load "
+                       f"with shifted columns and blank rows vanish instead "
+                       f"of being rejected")
+            elif not whole:
                 why = (f"the conversion is applied to "
                        f"{fmt(recv.args[1][0]) if recv is not None and recv.args[1] else fmt(recv)}"
                        f", not to the whole raw matrix: fields outside it "
@@ -409,10 +444,10 @@ def check(ctx):
     from ..core import import_rules
     n = import_rules(ctx, "c09", ("C09.3",), "C07.7")
     ctx.require(n >= 5, "C07.7: membership-test instances not found")
-    _writers(ctx, prog)
-    _csv(ctx, prog)
-    _transform(ctx, prog)
-    _messages(ctx, prog)
+    ctx.section(_writers, ctx, prog)
+    ctx.section(_csv, ctx, prog)
+    ctx.section(_transform, ctx, prog)
+    ctx.section(_messages, ctx, prog)
 
 
 # --------------------------------------------------------------------- C07.2
